@@ -194,3 +194,48 @@ func c17Stress(out *verifh.Out, id string, n int) {
 		Observed: map[string]any{"scrapes": scrapes.Load(), "api_requests": requests.Load(), "ra_builds": builds.Load(),
 			"initialisation_rounds": ini.Load(), "wall_ms": time.Since(t0).Milliseconds()}})
 }
+
+func c17BusyDebug(out *verifh.Out, id string) {
+	cfg, err := config.Parse(strings.NewReader(c17StressConfig+"\n[debug]\naddress = \"localhost:9430\"\nprometheus = true\npprof = true\n"), time.Unix(1700000000, 0))
+	if err != nil {
+		out.Emit(verifh.Case{ID: id, ImplViolation: "the configuration was rejected: " + err.Error()})
+		return
+	}
+	st := newMState()
+	for _, ifi := range cfg.Interfaces {
+		st.fwd[ifi.Name] = true
+	}
+	w := newMWiring(cfg, st)
+	var wg sync.WaitGroup
+	var slowOK atomic.Int64
+	for i := 0; i < 6; i++ {
+		wg.Add(1)
+		go func() {
+			defer wg.Done()
+			if status, _, _ := w.get("/debug/pprof/allocs?seconds=2"); status == 200 {
+				slowOK.Add(1)
+			}
+		}()
+	}
+	time.Sleep(300 * time.Millisecond)
+	var viol []string
+	for _, path := range []string{"/metrics", "/_/api/interfaces", "/metrics", "/_/api/interfaces"} {
+		doneC := make(chan int, 1)
+		go func() { status, _, _ := w.get(path); doneC <- status }()
+		select {
+		case <-doneC:
+		case <-time.After(1200 * time.Millisecond):
+			viol = append(viol, fmt.Sprintf("%s was not answered within 1.2 s while six long debug requests were in flight", path))
+		}
+		if len(viol) > 0 {
+			break
+		}
+	}
+	wg.Wait()
+	c := verifh.Case{ID: id, Input: map[string]any{"kind": "busy-debug", "long_requests": 6}, Observed: map[string]any{"long_requests_served": slowOK.Load()},
+		Tags: []string{"stream:busy-debug"}, ImplViolation: strings.Join(viol, "; ")}
+	if slowOK.Load() == 0 {
+		c.Tags = append(c.Tags, "busy-debug:long-requests-not-served") // (delta profiles unavailable: nothing was in flight)
+	}
+	out.Emit(c)
+}
